@@ -125,6 +125,21 @@ def exec : St → List Op → St × List (List Obs)
     let r2 := exec r1.1 os
     (r2.1, r1.2 :: r2.2)
 
+/-- The runner's consumer, `testResults.fetchTrace` (results.go): recording an outcome for `n`
+starts a goroutine whose `Await(ctx, n)` begins at some later point — after the operations
+`before` — and `report()` joins it after the operations `after`.  Result: the trace the waiter
+hands to the report (if any), and whether the waiter is still blocked at that point (then it
+runs into the deadline of its context and collects nothing). -/
+def collects (w : Nat) (n : Name) (before after : List Op) : Option Nat × Bool :=
+  let r := step (exec init before).1 (.await w n)
+  match r.2 with
+  | [.trace t] => (some t, false)
+  | [.waiting] =>
+    match (step (exec r.1 after).1 (.join w)).2 with
+    | [.trace t] => (some t, false)
+    | _ => (Option.none, true)
+  | _ => (Option.none, false)
+
 /-- all interleavings of the threads' operation sequences (each thread keeps its order) -/
 def interleavings {α} : Nat → List (List α) → List (List α)
   | 0, _ => [[]]
